@@ -47,9 +47,11 @@ Bounded == calls <= 12 /\ iter <= 5
 KaseOK == kase \in {0, 1, 2}
 Terminates == <>(jump = 9)
 
-(* acceptance of a recorded call sequence: seq[k] = <<kase in, kase out>> *)
+(* acceptance of a recorded call sequence: seq[k] = <<kase in, kase out>> or <<kase in, kase out, nq>> *)
 \* machine states as pairs <<name, iter>>
-StepSet(s, kin, kout, ngt1) ==
+\* nq: the logged outcome of the test x[jlast] # max|x| at an entry with JUMP = 4 (1 / 0; -1 = not logged): with it the branch is
+\* DETERMINED -- go on iff nq = 1 and fewer than 5 iterations were made in THIS estimate (iter restarts at 2 in every estimate)
+StepSet(s, kin, kout, ngt1, nq) ==
    LET nm == s[1]  it == s[2] IN
    IF nm = "start" THEN (IF kin = 0 /\ kout = 1 THEN {<<"j1", 0>>} ELSE {})
    ELSE IF nm = "j1" THEN (IF ngt1 THEN (IF kin = 1 /\ kout = 2 THEN {<<"j2", 0>>} ELSE {}) ELSE (IF kin = 1 /\ kout = 0 THEN {<<"done", 0>>} ELSE {}))
@@ -57,10 +59,14 @@ StepSet(s, kin, kout, ngt1) ==
    ELSE IF nm = "j5" THEN (IF kin = 1 /\ kout = 0 THEN {<<"done", 0>>} ELSE {})
    ELSE IF nm = "done" THEN {}
    ELSE IF nm = "j3" THEN (IF kin = 1 /\ kout = 2 THEN {<<"j4", it>>} ELSE IF kin = 1 /\ kout = 1 THEN {<<"j5", 0>>} ELSE {})
-   ELSE (IF kin = 2 /\ kout = 1 THEN ({<<"j5", 0>>} \cup (IF it < 5 THEN {<<"j3", it + 1>>} ELSE {})) ELSE {})
+   ELSE (IF kin = 2 /\ kout = 1
+         THEN (IF nq = 1 THEN (IF it < 5 THEN {<<"j3", it + 1>>} ELSE {<<"j5", 0>>})
+               ELSE IF nq = 0 THEN {<<"j5", 0>>}
+               ELSE {<<"j5", 0>>} \cup (IF it < 5 THEN {<<"j3", it + 1>>} ELSE {}))
+         ELSE {})
 RECURSIVE RunSet(_, _, _, _)
 RunSet(S, seq, k, ngt1) == IF k > Len(seq) THEN S
-                           ELSE RunSet(TLCEval(UNION {StepSet(s, seq[k][1], seq[k][2], ngt1) : s \in S}), seq, TLCEval(k + 1), ngt1)
+                           ELSE RunSet(TLCEval(UNION {StepSet(s, seq[k][1], seq[k][2], ngt1, IF Len(seq[k]) >= 3 THEN seq[k][3] ELSE -1) : s \in S}), seq, TLCEval(k + 1), ngt1)
 Accepts(seq, n) == Len(seq) <= 12 /\ <<"done", 0>> \in RunSet({<<"start", 0>>}, seq, 1, n > 1)
 \* the solves between two ?lacon calls: solves[k] is the list of <<uplo, trans>> after call k (1 = L, 2 = U; 0 = N, 1 = T, 2 = C)
 SolvesOK(seq, solves, norm) ==
